@@ -250,6 +250,11 @@ pub enum Ent {
     MadtUser(UserEntry),
     /// the same for `HEST::add_structure<T>`
     HestUser(UserEntry),
+    /// a primitive integer handed to `MADT::add_structure<T>` / `HEST::add_structure<T>`: the integers
+    /// satisfy the bound (`IntoBytes` from zerocopy, `Aml` from the crate) although their AML form
+    /// (prefix byte, narrowest width) is not their raw form — recorded finding KF-ADDSTRUCT-INT
+    IntM(u64, u64),
+    IntH(u64, u64),
 }
 
 /// a user-written table entry: `#[repr(C, packed)]`, `IntoBytes`, and a hand-written `Aml` impl that
@@ -671,6 +676,8 @@ pub fn build(op: &Op, hs: &mut Handles) -> Ent {
             30 => Ent::QosCtrl(Default::default()),
             40 => Ent::MadtGas(gas_of(&op.n[1..6])),
             41 => Ent::MadtUser(UserEntry { ty: n(1) as u8, len: 12, flags: (n(2) as u16).to_le_bytes(), addr: n(3).to_le_bytes() }),
+            43 => Ent::IntM(n(1), n(2)),
+            44 => Ent::IntH(n(1), n(2)),
             42 => Ent::HestUser(UserEntry { ty: n(1) as u8, len: 12, flags: (n(2) as u16).to_le_bytes(), addr: n(3).to_le_bytes() }),
             v => panic!("unknown dflt variant {}", v),
         },
@@ -710,6 +717,7 @@ impl Ent {
             Ent::XsdtEntry(v) => v.to_le_bytes().to_vec(),
             Ent::QosCtrl(x) => ser(x),
             Ent::Gas(x) => ser(x), Ent::MadtGas(x) => ser(x), Ent::MadtUser(x) => ser(x), Ent::HestUser(x) => ser(x),
+            Ent::IntM(w, v) | Ent::IntH(w, v) => match w { 8 => ser(&(*v as u8)), 16 => ser(&(*v as u16)), 32 => ser(&(*v as u32)), _ => ser(v) },
         }
     }
     /// raw in-memory form (`as_bytes`) for the `IntoBytes` structures (C14)
@@ -724,6 +732,7 @@ impl Ent {
             Ent::Ghes(x) => x.as_bytes().to_vec(), Ent::GhesV2(x) => x.as_bytes().to_vec(), Ent::Notif(x) => x.as_bytes().to_vec(),
             Ent::Gas(x) => x.as_bytes().to_vec(), Ent::MadtGas(x) => x.as_bytes().to_vec(),
             Ent::MadtUser(x) => x.as_bytes().to_vec(), Ent::HestUser(x) => x.as_bytes().to_vec(),
+            Ent::IntM(w, v) | Ent::IntH(w, v) => match w { 8 => (*v as u8).as_bytes().to_vec(), 16 => (*v as u16).as_bytes().to_vec(), 32 => (*v as u32).as_bytes().to_vec(), _ => v.as_bytes().to_vec() },
             _ => return None,
         })
     }
@@ -746,6 +755,7 @@ impl Ent {
             Ent::AerRp(x) => f(x), Ent::AerDev(x) => f(x), Ent::AerBr(x) => f(x), Ent::Ghes(x) => f(x), Ent::GhesV2(x) => f(x),
             Ent::Notif(x) => f(x), Ent::Ges(x) => f(x), Ent::Ged(x) => f(x),
             Ent::QosCtrl(x) => f(x), Ent::Gas(x) => f(x), Ent::MadtGas(x) => f(x), Ent::MadtUser(x) => f(x), Ent::HestUser(x) => f(x),
+            Ent::IntM(w, v) | Ent::IntH(w, v) => match w { 8 => f(&(*v as u8)), 16 => f(&(*v as u16)), 32 => f(&(*v as u32)), _ => f(v) },
             Ent::Ecam(..) | Ent::XsdtEntry(..) => return None,
         })
     }
@@ -848,6 +858,8 @@ impl Tab {
             (Tab::Madt(t), Ent::MadtGas(x)) => { t.add_structure(x); None }
             (Tab::Madt(t), Ent::MadtUser(x)) => { t.add_structure(x); None }
             (Tab::Hest(t), Ent::HestUser(x)) => { t.add_structure(x); None }
+            (Tab::Madt(t), Ent::IntM(w, v)) => { match w { 8 => t.add_structure(v as u8), 16 => t.add_structure(v as u16), 32 => t.add_structure(v as u32), _ => t.add_structure(v) }; None }
+            (Tab::Hest(t), Ent::IntH(w, v)) => { match w { 8 => t.add_structure(v as u8), 16 => t.add_structure(v as u16), 32 => t.add_structure(v as u32), _ => t.add_structure(v) }; None }
             _ => panic!("entry kind does not belong to this table"),
         }
     }
